@@ -223,7 +223,12 @@ def failures(case, obs):
                 if j is not None and op[1][j][0] == "err" and sn["calls"] >= j + 1:
                     got = sum(len(a[1]) // 2 for a in op[1][:j])
                     fault = ("recv", op[1][j][1], op[1][j][2], got)
-            if fault and in_domain(fault[0], kind, fault[1], fault[2]):
+            if fault and prev["cut"] and sn["res"][0] != "ok":
+                # servicing a connection already marked cutoff must not touch its socket at all
+                out.append(("after-cutoff", fault[0] + "-after-cutoff", fault[1], fault[2],
+                            f"{kind}.{k}: socket {fault[0]} attempted on a connection already marked cutoff"
+                            + ("" if sn["res"][0] == "ok" else f"; {sn['res'][1]} escaped")))
+            elif fault and in_domain(fault[0], kind, fault[1], fault[2]):
                 site, fl, code, got = fault
                 if sn["res"][0] != "ok":
                     out.append(("escape", site, fl, code, f"{kind}.{k}: fault {fl}:{code} at {site} escaped as {sn['res'][1]}"))
@@ -261,6 +266,20 @@ def failures(case, obs):
         io = {i: s for i, s in p.get("io", [])}
         hs = {i: h for i, h in p.get("hs", [])}
         now = {e[0]: e[1:] for e in po["ixes"]}
+        def cut_before_send(i):
+            """connection i was marked cutoff before this pass, or its receive phase in this pass met EOF / a
+            handled connection-level fault"""
+            if before.get(i, [False])[0]:
+                return True
+            scr = io.get(i)
+            if not scr:
+                return False
+            j = first_stop(scr["recvs"])
+            if j is None or po["calls"][str(i)][0] < j + 1:
+                return False
+            a = scr["recvs"][j]
+            return a[0] == "data" or (in_domain("recv", kind, a[1], a[2]) and not (a[1] == "os" and a[2] == errno.EPIPE))
+
         if po["res"][0] != "ok" and po["res"][1] != "OSErr":
             any_raise = True
             out.append(("escape", "?", "?", 0, f"Server.service raised a non-OSError exception ({po['res'][1]})"))
@@ -270,7 +289,12 @@ def failures(case, obs):
             tried = [e[0] for e in po["ixes"] if po["calls"][str(e[0])][1] == 1]
             cul = tried[-1] if tried else None
             a = io.get(cul, {}).get("send") if cul is not None else None
-            if a and a[0] == "err" and in_domain("send", kind, a[1], a[2]):
+            if a and a[0] == "err" and cut_before_send(cul):
+                pending = [e[0] for e in po["ixes"] if e[0] != cul and e[2] > 0 and po["calls"][str(e[0])][1] == 0]
+                out.append(("escape", "send-after-cutoff", a[1], a[2],
+                            f"Server.service raised {po['res'][1]}: connection {cul} was already cut off, yet a send was attempted "
+                            f"and failed with {a[1]}:{a[2]}; connections {pending} with queued data were not serviced"))
+            elif a and a[0] == "err" and in_domain("send", kind, a[1], a[2]):
                 out.append(("escape", "send", a[1], a[2], f"Server.service raised {po['res'][1]} on fault {a[1]}:{a[2]} of connection {cul}"))
             elif a and a[0] == "err":
                 pass        # an unlisted error code is outside the property's fault domain
@@ -282,7 +306,7 @@ def failures(case, obs):
             flt = None
             if j is not None and scr["recvs"][j][0] == "err" and nr >= j + 1:
                 flt = ("recv", scr["recvs"][j][1], scr["recvs"][j][2])
-            elif scr["send"][0] == "err" and ns == 1:
+            elif scr["send"][0] == "err" and ns == 1 and not cut_before_send(i):
                 flt = ("send", scr["send"][1], scr["send"][2])
             if flt and in_domain(flt[0], kind, flt[1], flt[2]):
                 if i not in now:
@@ -436,6 +460,15 @@ def directed():
                                        {"tx": [[3, "ff"]], "io": [[1, good], [2, good], [3, good]]}]})
     for tls in (False, True):
         good = {"recvs": [["data", "0102"], ["data", "03"]], "send": ["acc", 4]}
+        for stop in (["data", ""], ["err", "os", errno.ECONNRESET], ["err", "os", errno.ETIMEDOUT]):
+            for late in (["err", "os", errno.EPIPE], ["err", "os", errno.ECONNRESET], ["acc", 3]):
+                for pos in (1, 2):
+                    others = [i for i in (1, 2, 3) if i != pos]
+                    p1 = {"tx": [[1, P1], [2, P1], [3, P1]],
+                          "io": [[pos, {"recvs": [["data", "aa"], stop], "send": late}]] + [[i, good] for i in others]}
+                    later = {"tx": [[pos, "beef"], [others[-1], "ff"]],
+                             "io": [[pos, {"recvs": [["data", "bb"]], "send": late}]] + [[i, good] for i in others]}
+                    out.append({"scene": "server", "tls": tls, "ix0": [1, 2, 3], "cx0": [], "passes": [p1, later, later]})
         for fl, code in [("os", errno.EBADF), ("os", errno.ECONNRESET), ("os", errno.EPIPE)]:
             bad = {"recvs": [["data", "aa"], ["err", fl, code]], "send": ["acc", 2]}
             out.append({"scene": "server", "tls": tls, "single": True, "ix0": [1, 2, 3], "cx0": [],
@@ -461,6 +494,7 @@ def gen_server(rng):
     dom = [("os", c) for c in DOMAIN_OS if c != errno.EPIPE or rng.random() < 0.5] + ([("ssl", c) for c in DOMAIN_SSL] if tls else [])
     wild = rng.random() < 0.12        # unlisted codes too
     passes = []
+    dead = set()                      # connections whose receive side was scripted to stop (EOF / fault)
     for _ in range(rng.choice([1, 2, 3])):
         tx = [[i, c09.hx(rng, rng.randint(1, 20))] for i in ids if rng.random() < 0.6]
         hs = []
@@ -475,6 +509,12 @@ def gen_server(rng):
                 hs.append([i, ["err", fl, code]])
         io = []
         for i in ids:
+            if i in dead and rng.random() < 0.7:
+                if [i] not in [[t[0]] for t in tx]:
+                    tx.append([i, c09.hx(rng, rng.randint(1, 20))])
+                code = rng.choice([errno.EPIPE, errno.EPIPE, errno.ECONNRESET])
+                io.append([i, {"recvs": [["data", "00"]], "send": ["err", "os", code]}])
+                continue
             recvs = []
             for _ in range(rng.choice([0, 1, 2, 3])):
                 r = rng.random()
@@ -496,6 +536,8 @@ def gen_server(rng):
                 fl, code = rng.choice(dom) if not wild or rng.random() < 0.5 else ("os", rng.choice(c09.OTHER_ERRNOS))
                 send = ["err", fl, code]
             io.append([i, {"recvs": recvs, "send": send}])
+            if any(a[0] == "err" and not is_block(kind, a[1], a[2]) or a == ["data", ""] for a in recvs):
+                dead.add(i)
         passes.append({"tx": tx, "hs": hs, "io": io})
     case = {"scene": "server", "tls": tls, "ix0": ix0, "cx0": cx0, "passes": passes}
     if rng.random() < 0.2:
